@@ -505,11 +505,21 @@ pub fn case_special_files(va: &dyn VariantApi, seed: u64, st: &CaseStats) -> Res
         });
         st.eval();
         let r = va.hash_file(&fifo).ok_or("hash_file not compiled")?;
-        // if the helper returned without reading everything, unblock the writer
+        // if the helper returned without reading everything, unblock the writer: drain the pipe
+        // through a NON-BLOCKING read end (a blocking open would wait forever for a writer that
+        // has just finished) until the writer thread is done
         if !writer.is_finished() {
-            if let Ok(mut f) = std::fs::File::open(&fifo) {
-                let mut sink = Vec::new();
-                let _ = std::io::Read::read_to_end(&mut f, &mut sink);
+            use std::os::unix::fs::OpenOptionsExt;
+            const O_NONBLOCK: i32 = 0o4000;
+            if let Ok(mut f) = std::fs::OpenOptions::new().read(true).custom_flags(O_NONBLOCK).open(&fifo) {
+                let mut sink = vec![0u8; 1 << 16];
+                let t0 = std::time::Instant::now();
+                while !writer.is_finished() && t0.elapsed().as_secs() < 60 {
+                    match std::io::Read::read(&mut f, &mut sink) {
+                        Ok(0) | Err(_) => std::thread::sleep(std::time::Duration::from_millis(1)),
+                        Ok(_) => {}
+                    }
+                }
             }
         }
         let _ = writer.join();
